@@ -404,14 +404,55 @@ class Executor:
         return self.choose([cond, z3.Not(cond)], exhaustive=True) == 0
 
     def concretize(self, v, lo, hi, bits=64):
-        """fork on every value of v in [lo,hi] (unsigned compare); values outside are not considered"""
+        """fork on every feasible value of v in [lo,hi] (unsigned); values outside are not considered.
+        The decision record is the value itself; feasible values are enumerated by model blocking."""
         if not is_sym(v):
             return v
         v = simp(v)
         if z3.is_bv_value(v):
             return v.as_long()
-        k = self.choose([v == z3.BitVecVal(c, v.size()) for c in range(lo, hi + 1)])
-        return lo + k
+        pos = len(self.trace)
+        w = v.size()
+        if pos < len(self.prefix):
+            val = self.prefix[pos]
+            self.trace.append(val)
+            self.add_pc(v == z3.BitVecVal(val, w))
+            return val
+        vals = []
+        m = self.model
+        if m is not None:
+            mv = m.eval(v, model_completion=True).as_long()
+            if lo <= mv <= hi:
+                vals.append(mv)
+        self.solver.push()
+        self.solver.add(z3.ULE(z3.BitVecVal(lo, w), v), z3.ULE(v, z3.BitVecVal(hi, w)))
+        for x in vals:
+            self.solver.add(v != z3.BitVecVal(x, w))
+        limit = self.opts.get("max_concretize", 300)
+        try:
+            while True:
+                r = self.check()
+                if r != z3.sat:
+                    if r == z3.unknown:
+                        raise PathEnd("unknown", "solver unknown while enumerating values at " + self.where())
+                    break
+                x = self.last_model.eval(v, model_completion=True).as_long()
+                vals.append(x)
+                if len(vals) > limit:
+                    raise PathEnd("unwind", "more than %d feasible values for a size/index at %s" % (limit, self.where()))
+                self.solver.add(v != z3.BitVecVal(x, w))
+        finally:
+            self.solver.pop()
+        if not vals:
+            raise PathEnd("infeasible")
+        vals.sort()
+        for alt in vals[1:]:
+            self.newwork.append(self.trace + [alt])
+        val = vals[0]
+        self.trace.append(val)
+        self.add_pc(v == z3.BitVecVal(val, w))
+        self.model = None
+        return val
 
     def assume(self, c):
         if isinstance(c, bool):
@@ -620,6 +661,11 @@ class Executor:
                 raise GoPanic("uncomparable")
             return self.eq(a.val, b.val)
         if ta is Slice:
+            if isinstance(b, Slice):
+                if a.arr is None:
+                    return b.arr is None
+                if b.arr is None:
+                    return False
             raise Unsupported("slice compare")
         return a is b
 
@@ -1404,9 +1450,18 @@ def op_makemap(ex, g, fr, i):
     fr.regs[i["reg"]] = GoMap(t["key"], t["elem"])
 
 
+def widen(ex, v, tid):
+    """integer operand of any type -> 64-bit (python int stays; BV is sign/zero extended)"""
+    if not is_sym(v) or v.size() == 64:
+        return v
+    t = ex.types[tid]
+    n = 64 - v.size()
+    return z3.SignExt(n, v) if t["signed"] else z3.ZeroExt(n, v)
+
+
 def op_makeslice(ex, g, fr, i):
-    ln = ex.val(fr, i["len"])
-    cp = ex.val(fr, i["cap"])
+    ln = widen(ex, ex.val(fr, i["len"]), i.get("lent"))
+    cp = widen(ex, ex.val(fr, i["cap"]), i.get("capt"))
     et = ex.types[i["type"]]["elem"]
     maxn = ex.opts.get("max_make", 4096)
     if is_sym(ln):
@@ -1569,9 +1624,9 @@ def slice_bounds(ex, low, high, mx, length, cap, is_string):
 
 def op_slice(ex, g, fr, i):
     x = ex.val(fr, i["x"])
-    low = ex.val(fr, i["low"]) if i["low"] is not None else None
-    high = ex.val(fr, i["high"]) if i["high"] is not None else None
-    mx = ex.val(fr, i["max"]) if i["max"] is not None else None
+    low = widen(ex, ex.val(fr, i["low"]), i.get("lowt")) if i["low"] is not None else None
+    high = widen(ex, ex.val(fr, i["high"]), i.get("hight")) if i["high"] is not None else None
+    mx = widen(ex, ex.val(fr, i["max"]), i.get("maxt")) if i["max"] is not None else None
     k = ex.types[i["xt"]]["kind"]
     if isinstance(x, Poison):
         fr.regs[i["reg"]] = x
